@@ -249,7 +249,7 @@ def main(tier, replay=None):
                         continue
                     jobs.append((session + (idle,) + end + ("reconnect", slow[0], "H1", slow[1], "Ftls+mech", slow[2], "proceed", "TLS", "H1", "Fmech"), cfg))
     all_letters = list(LETTERS) + ["see-other+close"]
-    for _ in range(3000 if tier == "quick" else 100000):
+    for _ in range(3000 if tier == "quick" else 40000):
         n = r.choice([3, 5, 8, 10])
         w = [r.choice(["H1", "H1", "H0", "H09", "Hnoid", "H0noid"])] + [r.choice(all_letters) for _ in range(n)]
         if r.random() < 0.3:
